@@ -45,3 +45,18 @@ package xsync
 //@ func (*MutexWithoutLock).TryLock
 //@   props C02
 //@   ensures [the-no-op-lock-is-always-free|C02] result == true
+
+// Constructors: a new lock of the flavour its name says, free.
+
+//@ func NewMutexWithSpinlock
+//@   props C02 C13 C05
+//@   ensures [a-new-free-spinlock|C02,C13,C05] newobject(result) && result.lock == 0
+
+//@ func NewMutexWithLock
+//@   props C02 C13
+//@   ensures [a-new-mutex|C02,C13] newobject(result)
+
+//@ func NewMutexWithoutLock
+//@   props C02
+//@   ensures [a-new-no-op-lock|C02] newobject(result)
+
